@@ -38,7 +38,10 @@ fn run(s: &[i128]) -> Vec<i128> {
                         keys.lock().unwrap()[i] = b.max(0);
                         let mut svc = base.clone();
                         futures::future::poll_fn(|cx| svc.poll_ready(cx)).await.ok();
-                        callers[i] = Some(Manual::new(svc.call(a)));
+                        let mut m = Manual::new(svc.call(a));
+                        // a finished call future stays alive until the script drops it (late drop)
+                        m.keep_done = true;
+                        callers[i] = Some(m);
                     }
                 }
                 1 => {
